@@ -78,7 +78,7 @@ type Node struct {
 	Paren bool
 }
 
-var Atoms = []string{"a", "@p", "f ( x )", "1", "b", "c"}
+var Atoms = []string{"a", "@p", "f ( x )", "1", "b", "1.5", "c"}
 
 // Level of a node for the printing rule (atoms are 0).
 func (n *Node) Level() int {
@@ -258,10 +258,24 @@ func (n *Node) Ops() int {
 // Atoms in left-to-right order, so every enumerated tree is distinct by shape.
 // f returning false stops the enumeration.
 func Enumerate(k int, f func(n *Node) bool) {
+	EnumerateRot(k, func(int64) []int { return []int{0} }, f)
+}
+
+// EnumerateRot is Enumerate with the round-robin atom assignment started at each of the offsets
+// rots(shape index) returns, so that every leaf position sees different atom kinds.
+func EnumerateRot(k int, rots func(shape int64) []int, f func(n *Node) bool) {
+	var shape int64
 	gen(k, func(n *Node) bool {
-		i := 0
-		assignAtoms(n, &i)
-		return f(n)
+		shape++
+		for _, r := range rots(shape) {
+			i := r
+			c := clone(n)
+			assignAtoms(c, &i)
+			if !f(c) {
+				return false
+			}
+		}
+		return true
 	})
 }
 
